@@ -359,9 +359,8 @@ public:
 	Array& operator=(const Array& b)
 	{
 		if(this==&b) return *this;
-		if(--d().rc==0) free();
-		_a=b._a;
-		++d().rc;
+		Array c(b); // take the new reference before releasing the old block: b may be an element of this array
+		swap(_a, c._a);
 		return *this;
 	}
 	
